@@ -633,7 +633,7 @@ func (e *Eng) siteAsserts(fr *Frame, kind, name string, pos token.Pos, st *State
 		return
 	}
 	for _, s := range fr.fspec.Sites {
-		if s.Kind != kind || s.Callee != name || s.SetGhost != "" || s.After {
+		if s.Kind != kind || s.Callee != name || s.SetGhost != "" || s.After || s.Iter {
 			continue
 		}
 		if s.Ordinal != 0 && s.Ordinal != e.siteOrdinal(fr, kind, name) {
@@ -903,6 +903,10 @@ func (e *Eng) resolveRegionPattern(p string) []string {
 		_, srt := e.specType(gt)
 		e.regInit("G."+p, srt)
 		return []string{"G." + p}
+	}
+	if p == btItems || p == btLen {
+		e.btInit()
+		return []string{p}
 	}
 	if strings.HasPrefix(p, "elems ") {
 		t := e.ld.typeOf(strings.TrimSpace(p[6:]))
